@@ -168,8 +168,9 @@ def frame_correspondence(ck):
             mm = FRAME_RE.search(r["ok"])
             if mm:
                 got = ("Ret", mm.group(1), mm.group(2), mm.group(3))
-            elif "BETWEEN" not in r["ok"] and s is None and e is None:
-                got = ("Ret", k.upper(), "UNBOUNDED PRECEDING", "UNBOUNDED FOLLOWING")     # the default frame is not printed
+            elif "BETWEEN" not in r["ok"] and s is None and (e is None or (e == 0 and k == "Range")):
+                # (with a sort key, RANGE UNBOUNDED PRECEDING .. CURRENT ROW is SQL's default frame too)
+                got = ("Ret", k.upper(), "UNBOUNDED PRECEDING", "UNBOUNDED FOLLOWING" if e is None else "CURRENT ROW")     # a default frame is not printed
             else:
                 got = ("Shape", r["ok"][:200])
         elif "panic" in r:
@@ -401,7 +402,7 @@ def closure_programs(ck, decls):
         u = rng.random()
         # (arguments of lambdas are relations: an argument that overflows the lambda's own parameters lands in the relation
         #  parameter of the transform, and the resolver type-checks arguments before it reaches unpack)
-        t = std_call(name, drop=len(STD_CALLS[name]) if u < 0.1 and name in ("take", "derive", "select", "sort") else 0, extra=1 if u > 0.93 else 0)
+        t = std_call(name, extra=1 if u > 0.93 else 0)     # (no bare built-in here: a relation argument in its value slot is a type error first)
         for _ in range(depth):
             p = rng.choice([0, 0, 1, 1, 2])
             t = ("lam", p, t)
